@@ -15,7 +15,8 @@
 (***************************************************************************)
 EXTENDS Integers, Sequences, FiniteSets, TLC, Json, Randomization
 
-CONSTANTS MaxLen,    \* every input up to this length is enumerated
+CONSTANTS Alpha,     \* "full": one representative of every class; "comment", "string": small alphabets explored to greater length
+          MaxLen,    \* every input up to this length is enumerated
           NSample,   \* plus this many random longer inputs
           LongLen    \* of this length
 
@@ -25,7 +26,9 @@ Spaces  == {" ", "\n"}
 OneRune == {":", ".", "(", ")", "[", "]", "{", "}", "<", ">", "=", ",", ";", "|", "!"}
 Quotes  == {"'", "\""}
 Others  == {"/", "*", "&", "#", "E", "B"}     \* E: a two-byte rune (e-acute), B: an invalid UTF-8 byte
-Alphabet == Letters \cup Digits \cup Spaces \cup OneRune \cup Quotes \cup Others
+Alphabet == CASE Alpha = "comment" -> {"/", "*", "a", "\n"}
+              [] Alpha = "string" -> {"'", "\"", "a", "E", " "}
+              [] OTHER -> Letters \cup Digits \cup Spaces \cup OneRune \cup Quotes \cup Others
 Width(c) == IF c = "E" THEN 2 ELSE 1
 Keywords == {"ctx"}    \* the keywords spellable over Letters ("class", "implements", "this" are exercised by C10's programs)
 
